@@ -34,6 +34,13 @@ Proof. exact py_expand_bfs_spec_all. Qed.
 Theorem C02_source_expand_dfs : forall (fuel : nat) (N : net) (cfg : config) (d : sd) (start stack_limit size_limit : option nat), py_expand_dfs fuel N cfg d start stack_limit size_limit = expand_dfs fuel N cfg d start stack_limit size_limit.
 Proof. exact py_expand_dfs_spec_all. Qed.
 
+(* the public methods SuccessionDiagram.expand_bfs / expand_dfs (generated from the source: they pass their parameters on in order) *)
+Theorem C02_source_public_expand_bfs : forall (fuel : nat) (N : net) (cfg : config) (d : sd) (start level_limit size_limit : option nat), py_api_expand_bfs fuel N cfg d start level_limit size_limit = expand_bfs fuel N cfg d start level_limit size_limit.
+Proof. exact py_api_expand_bfs_spec. Qed.
+
+Theorem C02_source_public_expand_dfs : forall (fuel : nat) (N : net) (cfg : config) (d : sd) (start stack_limit size_limit : option nat), py_api_expand_dfs fuel N cfg d start stack_limit size_limit = expand_dfs fuel N cfg d start stack_limit size_limit.
+Proof. exact py_api_expand_dfs_spec. Qed.
+
 Theorem C02_bfs_hierarchy : forall (fuel : nat) (N : net) (cfg : config) (d' : sd), 1 <= max_motifs cfg -> expand_bfs fuel N cfg (init N) None None None = (d', RBool true) -> Hierarchy N d'.
 Proof. exact bfs_hierarchy. Qed.
 
@@ -75,6 +82,8 @@ Print Assumptions C02_source_ensure_node.
 Print Assumptions C02_source_class_invariant_initially.
 Print Assumptions C02_source_expand_bfs.
 Print Assumptions C02_source_expand_dfs.
+Print Assumptions C02_source_public_expand_bfs.
+Print Assumptions C02_source_public_expand_dfs.
 Print Assumptions C02_bfs_hierarchy.
 Print Assumptions C02_dfs_hierarchy.
 Print Assumptions C02_successors.
